@@ -176,7 +176,7 @@ fn how() -> impl Strategy<Value = How> {
 }
 
 fn pub_cfg() -> impl Strategy<Value = PubCfg> {
-    (opt(1usize..=3), opt(1usize..=5), opt(0u8..3)).prop_map(|(max_loans, max_slice_len, alloc)| PubCfg { max_loans, max_slice_len, alloc })
+    (opt(1usize..=3), opt(1usize..=5), opt(0u8..3), prop::bool::weighted(0.3)).prop_map(|(max_loans, max_slice_len, alloc, discard)| PubCfg { max_loans, max_slice_len, alloc, discard })
 }
 
 fn sub_cfg() -> impl Strategy<Value = SubCfg> {
@@ -219,7 +219,7 @@ fn op() -> impl Strategy<Value = Op> {
 /// start-up sequences that make the interesting states likely: two nodes (the two sides in mixed
 /// mode), one creates and the other opens the first service, ports on both
 pub fn prelude(kind: u8) -> Vec<Op> {
-    let pc = PubCfg { max_loans: None, max_slice_len: None, alloc: None };
+    let pc = PubCfg { max_loans: None, max_slice_len: None, alloc: None, discard: false };
     let sc = SubCfg { buffer: None, history_request: None };
     let mut v = vec![];
     if kind == 0 {
